@@ -309,7 +309,7 @@ def check_payload_untouched(chk, cfg, m, fn):
             except AnalysisError:
                 continue
             s, f = flow.name_field(src, m)
-            if s == mq.STRUCT and f == "basep":
+            if s in mq.STRUCTS and f == "basep":
                 bad.append(a)
     chk.ob("G5.payload-untouched", tag, not bad,
            "no load/store through a pointer derived from basep%s" %
